@@ -208,6 +208,7 @@ class World:
         self.overlap = {"asyncio": 0, "trio": 0}
         self.helpers = []
         self.service_classes = {}
+        self.callables = {}  # pid -> the callable built for it (handed out again by "adopt_same")
 
     def gate(self, name):
         return self.gates.setdefault(name, threading.Event())
@@ -247,9 +248,11 @@ def args_ok(world, pid, got_args, got_kwargs):
 
 
 # ---- client boundary wrappers (call event before invoking, return event after) ------------------
-def do_adopt(world, child_id, by, strict=False):
+def do_adopt(world, child_id, by, strict=False, same=False):
     child = world.payloads[child_id]
-    fn = make_payload(world, child)
+    fn = world.callables.get(child_id) if same else None  # same: the very callable object of the previous adoption
+    if fn is None:
+        fn = world.callables[child_id] = make_payload(world, child)
     args, kwargs = build_args(world, child_id, child)
     LOG("call", op="adopt", pid=child_id, by=by, gen=world.gen)
     try:
@@ -369,6 +372,8 @@ def common_op(world, pspec, op):
     kind = op[0]
     if kind == "adopt":
         do_adopt(world, op[1], by=pid)
+    elif kind == "adopt_same":
+        do_adopt(world, op[1], by=pid, same=True)
     elif kind == "execute":
         do_execute(world, op[1], by=pid)
     elif kind == "service":
@@ -471,6 +476,19 @@ async def run_async(world, pspec, args, kwargs):
                             LOG("raised", op="adopt", pid=cid, by=pid, gen=world.gen, exc=type(err).__name__, msg=str(err)[:100])
                             break
                         await lib.sleep(0)
+                elif kind == "exec_loop":
+                    # keeps calling into another flavour's runner (op: executed pid, count or None, pause)
+                    n = 0
+                    while op[2] is None or n < op[2]:
+                        do_execute(world, op[1], by=pid)
+                        n += 1
+                        await lib.sleep(op[3])
+                elif kind == "shutdown_in_worker":
+                    # shutdown() in a worker thread of the payload's own framework, awaited by the payload
+                    if flavour == "trio":
+                        await trio.to_thread.run_sync(do_shutdown, world, pid + "/worker")
+                    else:
+                        await asyncio.get_running_loop().run_in_executor(None, do_shutdown, world, pid + "/worker")
                 elif kind == "block":
                     while True:
                         await lib.sleep(3600)
@@ -618,13 +636,25 @@ def make_payload(world, pspec):
         async def payload(*args, **kwargs):
             return await run_async(world, pspec, args, kwargs)
     payload.__name__ = payload.__qualname__ = "payload_%s" % pspec["id"]
-    return dress(payload, pspec.get("callable", "function"))
+
+    def prefix():
+        LOG("step", pid=pspec["id"], gen=world.gen, n=-1, inside_section=world.overlap.get(pspec["flavour"], 0), **context_facts())
+
+    return dress(payload, pspec.get("callable", "function"), prefix)
 
 
-def dress(inner, how):
+def dress(inner, how, prefix=None):
     """The same payload as another kind of callable: what matters is what calling it gives."""
     if how == "function":
         return inner
+    if how == "prefixed":
+        def prefixed(*args, **kwargs):
+            # a plain function: a synchronous first section, then it hands out the coroutine (or result) of the inner one
+            prefix()
+            return inner(*args, **kwargs)
+
+        prefixed.__name__ = prefixed.__qualname__ = inner.__name__
+        return prefixed
     if how == "lambda":
         return lambda *args, **kwargs: inner(*args, **kwargs)
     if how == "wrapped":
@@ -661,7 +691,7 @@ def dress(inner, how):
     raise AssertionError("unknown kind of callable %r" % (how,))
 
 
-CALLABLE_KINDS = ["function", "lambda", "wrapped", "partial", "object", "method"]
+CALLABLE_KINDS = ["function", "lambda", "wrapped", "partial", "object", "method", "prefixed"]
 
 
 # ------------------------------------------------------------------------------ driver thread
